@@ -171,6 +171,9 @@ def conventional_api(draw, lro=True, streaming=True):
                  "http": {"verb": "post", "uri": uri}}
             if body:
                 m["http"]["body"] = body
+            if draw(st.integers(0, 7)) == 0:
+                # bound through the `custom` pattern (HEAD): no REST binding is emitted, the gRPC surface and its tests remain
+                m["http"] = {"verb": "custom", "kind": "HEAD", "uri": uri}
             if ss:
                 m["ss"] = True
             if draw(st.booleans()) or len(sig[0].split(",")) > 1:
